@@ -229,6 +229,11 @@ def main():
             out['solver_s'] = round(stats.solver_s - reach_s, 3)
             out['path_status'] = dict(stats.path_status)
             out['path_status_reach'] = status_reach
+            odd = {k: v for k, v in stats.path_status.items() if k not in ('confirmed', 'pre_failed', 'refuted')}
+            if odd and out['verdict'] == 'confirmed':
+                # CrossHair dropped paths (IgnoreAttempt / nested-contract failures / unsupported operations): exhaustion cannot be claimed
+                out['verdict'] = 'unknown'
+                out['detail'] = 'paths ignored or aborted by the engine: %r' % (odd,)
             if rt['verdict'] != 'refuted' and out['verdict'] == 'confirmed':
                 # vacuous: nothing reaches the post-condition
                 out['verdict'] = 'vacuous'
